@@ -41,6 +41,7 @@ package zhttp
 //@   implements functype DpFactory
 //@   captures request_given: r != nil
 //@   modifies r.Form, r.PostForm, srctag
+//@   ensures[C15] issue_iff_the_form_does_not_parse: (result1 != nil) == (parseform_err(r) != nil)
 //@   ensures[C15] malformed_form_is_one_invalid_form_issue: result1 != nil ==> result0 == nil && isnew(result1) && result1.Code == "invalid_form" && result1.Err != nil
 //@   ensures[C15,C14] form_values_read_form_tags: result1 == nil ==> istype(result0, urlDataProvider) && result0.(urlDataProvider).Data == r.Form && result0.(urlDataProvider).tag == &formTag
 //@ func init$3$1()
